@@ -246,6 +246,9 @@ def run(ctx):
             ctx.traces += 1
             ctx.case(("C14", json.dumps(s, sort_keys=True), tuple(w.schedule)))
             exc = w.any_exc
+            if w.outcome == "steplimit":
+                ctx.extra["inconclusive_step_limit"] = ctx.extra.get("inconclusive_step_limit", 0) + 1
+                continue
             if matched != total or w.outcome != "ok" or exc is not None:
                 ev = tr[matched]["op"] if matched < total else None
                 sig = {"kind": "schedule", "scenario": s["name"], "event": ev and ev["op"], "outcome": w.outcome}
